@@ -284,8 +284,15 @@ impl Shared {
         let (s, f) = {
             // under the draw mutex the marker is either NONE (no seqno drawn that is not yet
             // acknowledged) or the drawn seqno — never "drawn but not marked yet"
+            // ORDER MATTERS: the marker is read BEFORE the visible counter. While this thread holds the draw mutex no
+            // seqno can be drawn, but a write that is already in flight can still complete (and clear the marker).
+            // A write that is in flight at the instant `visible` is read was therefore already marked when the
+            // marker was read just before; reading the marker after `visible` would miss a write that completed in
+            // between - although it was in flight when the snapshot value was fixed (third correction, DESIGN 8.3).
             let _g = self.draw.lock().unwrap_or_else(|e| e.into_inner());
-            (self.visible.get(), self.inflight.load(Ordering::SeqCst))
+            let f = self.inflight.load(Ordering::SeqCst);
+            let s = self.visible.get();
+            (s, f)
         };
         if f != NONE && f < s {
             return None;
